@@ -7,10 +7,20 @@ BOUNDS = {"quick": 24, "thorough": 48}
 DEEP = {"quick": 56, "thorough": 112}
 
 
+def box_bounds(tier):
+    return (common.bound("BOX_N", BOUNDS[tier]),
+            common.bound("BOX_DEEP", DEEP[tier]),
+            common.bound("BOX_LARGE", 1))
+
+
 def full_box(tier):
-    N = BOUNDS[tier]
-    return D.box(N, tier) + D.box_deep(N, DEEP[tier], tier) + \
-        D.box_large(tier)
+    N, deep, large = box_bounds(tier)
+    out = D.box(N, tier)
+    if deep > N:
+        out += D.box_deep(N, deep, tier)
+    if large:
+        out += D.box_large(tier)
+    return out
 
 RULES = {
     "C01": "configurations whose stream loads at least one checkpoint "
@@ -138,7 +148,7 @@ def optimized_pass(prop, tier):
 def small_box_failures(prop, tier):
     """Runs inside the -O interpreter."""
     import sys
-    N = 10 if tier == "quick" else 16
+    N = common.bound("BOX_O", 10 if tier == "quick" else 16)
     cfgs = D.box(N, "quick")
     out = D.run_box(cfgs, make_reducer(prop))
     bad = []
@@ -163,9 +173,9 @@ def sample_of(cfg):
 
 def check(prop, tier):
     res = common.Result(prop, tier)
-    N = BOUNDS[tier]
+    N, deep, _large = box_bounds(tier)
     cfgs = full_box(tier)
-    res.bounds = {"N_max": N, "N_deep_layer": DEEP[tier],
+    res.bounds = {"N_max": N, "N_deep_layer": deep,
                   "configs": len(cfgs), "tier": tier,
                   "passes_max": 3 if tier == "quick" else 5}
     out = merge_orders(D.run_box(cfgs, make_reducer(prop), orders=2))
